@@ -164,6 +164,7 @@ def run(ctx):
             events.append(e)
     ctx.cov["evaluations"] += len(res)
     ctx.cov["runs_accepted_by_uncrustify"] = sum(1 for evs, info, j in res if info["rc"] == 0)
+    ctx.cov["refused_generated_or_dense"] = sorted({j[0] for evs, info, j in res if info["rc"] != 0 and j[0].split("|")[0] in ("gen", "dense", "lit", "cmtpos")})[:30]
     reps = pe.judge(ctx, events, "c03")
     byid = {j[0]: (evs, info, j) for evs, info, j in res}
     for rep in reps:
